@@ -1979,6 +1979,28 @@ def run(tier):
               'no function of the tree core that the main process runs on the whole input recurses over the nesting depth (directly, through helpers, generators, tuple comparison, deepcopy or the generic pickler)',
               None,
               'RecursionError in the main process: a traceback and exit status 1 instead of a completed run')
+    # the validation of the match strings does not crash on a golden run
+    # that expired (streams are None then)
+    from . import c10 as _c10
+    sub10 = Check('C10', 'other', tier, [], [])
+    sub10.rule('C10.R3', 'nullness of golden streams')
+    chk.guard(_c10.rule_nullness, sub10, prog)
+    Check.restrict(sub10, lambda wh, what: 'do_golden_runs' in str(wh))
+    chk.adopt('C04.R19', 'the golden-run validation reads a stream only '
+              'where it is known not to be None (an expired golden run has '
+              'none): no TypeError traceback in place of the one-line '
+              'diagnostic (shared with C10.R3)', sub10)
+    from .. import filenames
+    chk.guard(filenames.report, chk, prog, 'C04.R20',
+              'the names of the files ddSMT creates are assembled from '
+              'counters, ids and the user\'s paths only - no free text '
+              '(mutator descriptions, symbols)',
+              'the main process ends with a traceback although input and command are fine')
+    from .. import ctortext
+    chk.guard(ctortext.report_asserts, chk, prog, 'C04.R21',
+              'the assertions of the tree core test types and arities, never '
+              'what the text of a leaf looks like',
+              'AssertionError in the main process (or in every worker) on a legal input')
     extra = None
     if tier == 'thorough':
         from .. import selftest
